@@ -286,3 +286,32 @@ def execution_input_in_context(x: int, has_a: bool, has_b: bool, rp: int, ip: in
 
 import s2_more as more
 more.register(globals(), {"C02"}, ["gen_nested"], {"gen_nested": [("_canonical", "c0 == 0 and c1 == 0 and c2 == 0 and c3 == 0 and c4 == 0 and c5 == 0 and c6 == 0 and c7 == 0 and c8 == 0 and c9 == 0 and c10 == 0 and c11 == 0 and c12 == 0 and c13 == 0 and c14 == 0 and c15 == 0")]})
+
+
+@condition(timeout={"quick": 120, "thorough": 300}, functions=["apply_path ($$ paths)", "asl_state_Pass", "change_state (updates the Context Object in place)"])
+def context_selection_is_a_value(where: int, second: int, x: int) -> bool:
+    """
+    requires: 0 <= where < 3 and 0 <= second < 2 and 0 <= x <= 1
+    ensures: _
+    """
+    # state First selects (part of) the Context Object: what it selected describes the moment of selection (State.Name
+    # == "First"), however the engine goes on updating its context for the next state
+    first = {"Type": "Pass", "Next": "Second"}
+    if where == 0:
+        first["InputPath"] = "$$.State"
+    elif where == 1:
+        first["Parameters"] = {"ctx.$": "$$.State", "x.$": "$.x"}
+    else:
+        first["OutputPath"] = "$$.State"
+    secondst = {"Type": "Pass", "End": True} if second == 0 else {"Type": "Pass", "Parameters": {"seen.$": "$", "now.$": "$$.State.Name"}, "End": True}
+    asl = {"StartAt": "First", "States": {"First": first, "Second": secondst}}
+    got = run_engine(asl, {"x": x}, None)
+    if got[0] != "SUCCEEDED":
+        return False
+    out = got[1]
+    if second == 1:
+        if out.get("now") != "Second":
+            return False
+        out = out.get("seen")
+    sel = out.get("ctx") if where == 1 else out
+    return isinstance(sel, dict) and sel.get("Name") == "First"
